@@ -128,11 +128,7 @@ def compare_with_pct(case, impl, model):
     mm = {}
     for row in model['rows']:
         mm.setdefault(strip({c: row.get(c) for c in model['cols']}, phcols), []).append(row)
-    for row in impl['rows']:
-        cand = mm.get(strip(row, phcols))
-        if not cand:
-            return 'row %r has no counterpart in the model' % (row,)
-        mrow = cand.pop()
+    def cell_why(row, mrow):
         for c in phcols:
             ph = mrow.get(c)
             if isinstance(ph, dict):
@@ -141,6 +137,18 @@ def compare_with_pct(case, impl, model):
                     return why
             elif not aglib.same(row.get(c), ph):
                 return 'cell %s: implementation %r, model %r' % (c, row.get(c), ph)
+        return None
+    for row in impl['rows']:
+        cand = mm.get(strip(row, phcols))
+        if not cand:
+            return 'row %r has no counterpart in the model' % (row,)
+        # several model rows can look alike outside the percentile cells (group keys None and NaN both print null):
+        # the row takes the first of them whose percentile cells fit; it is a difference only when none does
+        whys = [cell_why(row, mrow) for mrow in cand]
+        ok = [k for k, w in enumerate(whys) if w is None]
+        if not ok:
+            return whys[0]
+        cand.pop(ok[0])
     return None
 
 
